@@ -655,9 +655,18 @@ func MapParamsMatrix() *m.Design {
 	// (MapParams() on a payload that is itself a map is left out: the generated client and server disagree on the key spelling, open finding)
 	body := &m.Method{Name: "body", Payload: obj(fld("q", mp(str(), str()), false), fld("note", str(), false)), Result: ok(),
 		HTTP: &m.HTTPEndpoint{Routes: []m.Route{{Verb: "POST", Path: "/mapparams/body"}}, MapParams: "q"}}
+	// collection-typed parameters whose wire name differs from the attribute
+	// name, required and optional (their Go representation does not depend
+	// on requiredness, so a lost required flag still compiles); kept in this
+	// small design so that nothing else can stop it from building
+	i64 := func() *m.Attr { return m.Prim(m.Int64) }
+	lists := &m.Method{Name: "lists", Payload: obj(fld("ids", arr(str()), true), fld("nums", arr(i64()), true), fld("opts", arr(str()), false), fld("hs", arr(str()), true), fld("ho", arr(i64()), false)), Result: ok(),
+		HTTP: &m.HTTPEndpoint{Routes: []m.Route{{Verb: "GET", Path: "/mapparams/lists"}},
+			Query:   []m.Mapping{{Attr: "ids", Wire: "id"}, {Attr: "nums", Wire: "n"}, {Attr: "opts", Wire: "o"}},
+			Headers: []m.Mapping{{Attr: "hs", Wire: "X-Hs"}, {Attr: "ho", Wire: "X-Ho"}}}}
 	return &m.Design{API: m.API{Name: "mapparams", Title: "MapParams matrix"},
-		Services: []*m.Service{{Name: "mapparams", HasHTTP: true, Methods: []*m.Method{attr, multi, body}}},
-		Features: []string{"fixed-design:map-params-matrix", "map-params"}}
+		Services: []*m.Service{{Name: "mapparams", HasHTTP: true, Methods: []*m.Method{attr, multi, body, lists}}},
+		Features: []string{"fixed-design:map-params-matrix", "map-params", "renamed-required-collection-params"}}
 }
 
 // NestMatrix is a fixed design about collections nested three deep, in every
